@@ -29,7 +29,9 @@ def gen_from_model(ctx, cfg, workers=None, timeout=1200, module='H2Server'):
     ctx.states += r.distinct
     ctx.transitions += r.generated
     ctx.models.append({'module': module, 'cfg': cfg, 'distinct': r.distinct, 'generated': r.generated, 'wall_s': round(r.wall, 1)})
-    return parse_scen_lines(r)
+    hs = parse_scen_lines(r)
+    hs.sort(key=lambda h: json.dumps(h, sort_keys=True))   # TLC's worker interleaving must not influence sampling
+    return hs
 
 
 REQ_BASE = lambda sid, method: [[":method", method], [":scheme", "https"], [":path", "/s%d" % sid], [":authority", "ex.com"], ["x-sid", str(sid)]]
